@@ -8,7 +8,7 @@ CONSTANTS
   Preamble = TRUE
   MaxConf = 1
   Buf = 1
-  Fixes = {"D1", "D14", "D2", "D18", "D19", "D20", "D21", "D23", "D24"}
+  Fixes = {"D1", "D14", "D2", "D18", "D19", "D20", "D21", "D23", "D24", "D25"}
   ColorOnly = FALSE
   Modes = {}
   ReplayLen = 6
